@@ -140,6 +140,42 @@ fn truncation_cases(seed: [u8; 32], n: usize) -> Vec<Case> {
     out
 }
 
+/// terms nested to just below, at and just above the decoders' nesting limit, with every kind of leaf at the bottom
+fn nesting_boundary_cases() -> Vec<Case> {
+    let pid = Value::Pid { node: "n@h".into(), id: 1, serial: 2, creation: 3 };
+    let leaves: Vec<Value> = vec![
+        Value::int(7),
+        Value::int(1 << 40),
+        Value::float(1.5),
+        Value::atom("leaf"),
+        Value::binary(b"bin"),
+        Value::bits(&[0xA0], 3),
+        Value::nil(),
+        Value::Tuple(vec![]),
+        Value::Tuple(vec![Value::atom("a")]),
+        Value::list(vec![Value::int(1), Value::int(2)]),
+        Value::list((0..3).map(|i| Value::int(i + 65)).collect()),
+        Value::Map(vec![(Value::atom("k"), Value::atom("v"))]),
+        pid.clone(),
+        Value::Port { node: "n@h".into(), id: 5, creation: 1 },
+        Value::Port { node: "n@h".into(), id: 1 << 40, creation: 1 },
+        Value::Ref { node: "n@h".into(), creation: 2, ids: vec![1, 2, 3] },
+        Value::ExportFun { module: "m".into(), function: "f".into(), arity: 2 },
+        Value::Fun { arity: 1, uniq: [7; 16], index: 1, module: "m".into(), old_index: 2, old_uniq: 3, pid: Box::new(pid), free: vec![Value::atom("fv")] },
+    ];
+    let mut out = vec![];
+    for kind in 0..4u8 {
+        for k in (248..=262usize).chain([2usize, 100, 127, 128, 129, 200]) {
+            for leaf in &leaves {
+                let steps = if kind == 3 { k / 2 } else { k };
+                let v = crate::props::c03::nested(kind, steps, leaf);
+                out.push(Case::Raw(refmodel::etf::refenc_canonical(&v)));
+            }
+        }
+    }
+    out
+}
+
 pub fn run(run: &mut Run) {
     run.rule = "valid encodings from the term space (modern tags only, and with legacy/LOCAL forms), every truncation of a sample of them, mutations (bit flips, \
         boundary-value overwrites, inserts, deletes, splices) and raw bytes; differential owned vs zero-copy. Non-trivial = input passes the version byte and has >= 2 nodes or was mutated; distinct by bytes"
@@ -151,8 +187,9 @@ pub fn run(run: &mut Run) {
     run.prop("differential", strategy, run.tier.pick(60_000, 3_000_000), oracle);
     let t = truncation_cases(run.seed_for("truncations"), run.tier.pick(150, 3000));
     run.enumerate("all-truncations", t.into_iter(), oracle);
+    run.enumerate("nesting-boundary", nesting_boundary_cases().into_iter(), oracle);
 }
 
 pub fn replays() -> Vec<ReplayEntry> {
-    vec![replay_entry("differential", oracle), replay_entry("all-truncations", oracle)]
+    vec![replay_entry("differential", oracle), replay_entry("all-truncations", oracle), replay_entry("nesting-boundary", oracle)]
 }
